@@ -467,6 +467,101 @@ theorem sinv_accept (c : SCfg) (ls : List Label) (hc : Clean0 (accept c ls) = tr
 
 theorem slack_le_one (p : Phase) : slack p ≤ 1 := by cases p <;> simp [slack]
 
+/-! ### a batch is only held between `GET2` and the dispatch -/
+def NoBatch (s : SState) : Prop := s.phase ≠ .afterGet2 → s.batch = []
+
+theorem nobatch_step (c : SCfg) (s : SState) (l : Label) (h : NoBatch s)
+    (hc : Clean0 (stepL c s l) = true) : NoBatch (stepL c s l) := by
+  have hs0 : Clean0 s = true := clean0_step_mono c s l hc
+  have hs : s.dis = [] := by simpa [Clean0] using hs0
+  have hd : (stepL c s l).dis = [] := by simpa [Clean0] using hc
+  have same : ∀ s' : SState, vw s' = vw s → NoBatch s' := by
+    intro s' hv hp
+    have e1 : s'.phase = s.phase := congrArg V.phase hv
+    have e6 : s'.batch = s.batch := congrArg V.batch hv
+    rw [e6]; rw [e1] at hp; exact h hp
+  have moved : ∀ (s' : SState) (p : Phase), s.phase ≠ .afterGet2 → s'.batch = s.batch → NoBatch s' := by
+    intro s' p hne hb _; rw [hb]; exact h hne
+  cases l with
+  | tx e => exact same _ (vw_tx c s e)
+  | rx e => exact same _ (vw_rx c s e)
+  | other => exact same _ (vw_other c s)
+  | cbIn a b t => exact same _ (vw_cbIn c s a b t)
+  | cbOut a b t => exact same _ (vw_cbOut c s a b t)
+  | envMove => exact same _ (vw_env c s)
+  | pPend => exact same _ (vw_pPend c s)
+  | pWake => exact same _ (vw_pWake c s)
+  | pOk f => exact same _ (vw_pOk c s f)
+  | pErr => exact same _ (vw_pErr c s)
+  | pEnd => exact same _ (vw_pEnd c s)
+  | pFinish => exact same _ (vw_pFinish c s)
+  | ins t a b => exact same _ (vw_ins c s t a b)
+  | verdict b x y z => exact same _ (vw_verdict c s b x y z)
+  | notif id f r => exact same _ (vw_notif c s id f r)
+  | brk => exact same _ (vw_brk c s hs hd).2
+  | poll =>
+    have hv := vw_poll c s
+    intro hp
+    have e1 : (stepL c s .poll).phase = s.phase := congrArg V.phase hv
+    have e6 : (stepL c s .poll).batch = s.batch := congrArg V.batch hv
+    rw [e6]; rw [e1] at hp; exact h hp
+  | hookTake =>
+    obtain ⟨hp, hv⟩ := vw_hookTake c s hs hd
+    exact moved _ .loopTop (by rw [hp]; simp) (congrArg V.batch hv)
+  | hookRestore =>
+    obtain ⟨hp, hv⟩ := vw_hookRestore c s hs hd
+    exact moved _ .exiting (by rw [hp]; simp) (congrArg V.batch hv)
+  | exit =>
+    obtain ⟨hp, _, hv⟩ := vw_exit c s hs hd
+    exact moved _ .exited (by rw [hp]; simp) (congrArg V.batch hv)
+  | get1 t ask ns nc =>
+    obtain ⟨hp, hv⟩ := vw_get1 c s t ask ns nc hs hd
+    exact moved _ .afterGet1 (by rcases hp with hp | hp <;> (rw [hp]; simp)) (congrArg V.batch hv)
+  | get2 t2 slots got sleep running =>
+    intro hp
+    have := (get2_fields c s t2 slots got sleep running).1
+    rw [← get2_eq c] at this
+    exact absurd this hp
+  | idle fin sl =>
+    obtain ⟨_, _, _, hbt, hv⟩ := vw_idle c s fin sl hs hd
+    intro _
+    have e6 : (stepL c s (.idle fin sl)).batch = s.batch := congrArg V.batch hv
+    rw [e6]; exact hbt
+  | idleYield =>
+    obtain ⟨hp, hv⟩ := vw_idleYield c s hs hd
+    exact moved _ .idle2 (by rw [hp]; simp) (congrArg V.batch hv)
+  | idleSlept =>
+    obtain ⟨hp, hv⟩ := vw_idleSlept c s hs hd
+    exact moved _ .idle2 (by rw [hp]; simp) (congrArg V.batch hv)
+  | idleContinue =>
+    obtain ⟨hp, _, hv⟩ := vw_idleContinue c s hs hd
+    exact moved _ .loopTop (by rcases hp with hp | hp <;> (rw [hp]; simp)) (congrArg V.batch hv)
+  | disp k sl =>
+    obtain ⟨_, hv⟩ := vw_disp c s k sl hs hd
+    intro _
+    exact congrArg V.batch hv
+  | cons got =>
+    obtain ⟨hp, _, hv⟩ := vw_cons c s got hs hd
+    exact moved _ .draining (by rw [hp]; simp) (congrArg V.batch hv)
+  | endA id f r t =>
+    have hv := vw_endA c s id f r t hs hd
+    intro hp
+    have e1 : (stepL c s (.endA id f r t)).phase = s.phase := congrArg V.phase hv
+    have e6 : (stepL c s (.endA id f r t)).batch = s.batch := congrArg V.batch hv
+    rw [e6]; rw [e1] at hp; exact h hp
+
+theorem nobatch_accept (c : SCfg) (ls : List Label) (hc : Clean0 (accept c ls) = true) : NoBatch (accept c ls) := by
+  have gen : ∀ (ls : List Label) (s : SState), NoBatch s → Clean0 (ls.foldl (stepL c) s) = true →
+      NoBatch (ls.foldl (stepL c) s) := by
+    intro ls
+    induction ls with
+    | nil => intro s h _; exact h
+    | cons l rest ih =>
+      intro s h hc
+      simp only [foldl_cons] at hc ⊢
+      exact ih _ (nobatch_step c s l h (clean0_foldl_mono c rest _ hc)) hc
+  exact gen ls {} (fun _ => rfl) hc
+
 /-! ### the counts, in words -/
 def isGet2 : Label → Bool | .get2 .. => true | _ => false
 def isIdleContinue : Label → Bool | .idleContinue => true | _ => false
